@@ -74,8 +74,9 @@ def job_real_reflect(J, gname, cls, dl):
         if r.kind != "ret":
             J.claim(r, "real %s session starts (%s)" % (gname, type(r.value).__name__), False, cex=cex, oracle="side")
             continue
+        J.claim(r, "real %s: outcome for a body of width W%+d is a refusal unless the width is exact (%s)" % (gname, dl, r.value),
+                r.value != "key" or dl == 0, cex=cex, oracle="side")
         if r.value == "key":
-            J.claim(r, "real %s: a key only for a body of exactly element width" % gname, dl == 0, cex=cex, oracle="side")
             J.claim(r, "real %s: a key never for a body with the integer value of the own element" % gname,
                     d["inb_val"] != d["own_val"], cex=cex, oracle="side")
 
